@@ -2,7 +2,10 @@
 
 package corebgp
 
-import "net/netip"
+import (
+	"net"
+	"net/netip"
+)
 
 // C13 — only connections from configured peers to the configured address are served.
 
@@ -187,5 +190,55 @@ func Verif_C13_admission_concrete_addresses() {
 		verifAssert("refused-connection-closed-without-a-byte", c.closed && len(c.writes) == 0 && pl.nGetCaps == 0)
 		verifCover("concrete-refused")
 	}
+	s.Close()
+}
+
+// Every listener handed to Serve is served: a connection arriving on any of them is admitted or
+// refused by the same rule (an accept loop bound to the wrong listener would leave it unanswered).
+func Verif_C13_every_listener_is_served() {
+	verifEngineOnly()
+	verifDelayBound(0)
+	verifNote("Server.Serve with three listeners and one passive peer; one connection from the configured remote or from another source (symbolic choice) is offered to a symbolically chosen listener: it must be accepted from that listener and admitted (OPEN sent) or closed without a byte; a second connection on another listener is treated likewise")
+	s, _ := NewServer(netip.MustParseAddr("10.0.0.1"))
+	pl := newMonPlugin()
+	remote := netip.MustParseAddr("192.0.2.1")
+	verifAssert("addpeer-ok", s.AddPeer(PeerConfig{RemoteAddress: remote, LocalAS: 65000, RemoteAS: 65001}, pl, WithPassive()) == nil)
+	ls := []*symListener{newSymListener(), newSymListener(), newSymListener()}
+	go s.Serve([]net.Listener{ls[0], ls[1], ls[2]})
+	verifQuiesce()
+	k := verifChoose("listener", 3)
+	known := verifChoose("source-configured", 2) == 1
+	c := newStagedConn("probe")
+	c.local = netip.MustParseAddr("10.0.0.1")
+	c.remote = netip.MustParseAddr("198.51.100.7")
+	if known {
+		c.remote = remote
+	}
+	select {
+	case ls[k].ch <- c:
+	default:
+		verifAssert("listener-is-being-accepted-on", false)
+		return
+	}
+	verifQuiesce()
+	if known {
+		verifAssert("admitted-connection-gets-open", !c.closed && c.wroteOpenFirst())
+	} else {
+		verifAssert("refused-connection-closed-without-a-byte", c.closed && len(c.writes) == 0 && pl.nGetCaps == 0)
+	}
+	// a stranger on another listener is refused as well
+	k2 := (k + 1 + verifChoose("other-listener", 2)) % 3
+	d := newStagedConn("probe2")
+	d.local = netip.MustParseAddr("10.0.0.1")
+	d.remote = netip.MustParseAddr("198.51.100.8")
+	select {
+	case ls[k2].ch <- d:
+	default:
+		verifAssert("other-listener-is-being-accepted-on", false)
+		return
+	}
+	verifQuiesce()
+	verifAssert("second-refused-connection-closed-without-a-byte", d.closed && len(d.writes) == 0)
+	verifCover("every-listener")
 	s.Close()
 }
